@@ -11,7 +11,16 @@ Transactron scheduler.  `core` increments a hardware execution counter `gcnt` an
 (gcnt, x ^ 0x5A ^ gcnt[7:0]); `calls[k]` increments its own hardware counter `cnt<k>`.  1-2 transactions
 `T<j>` (request = `treq<j> ^ gl[6]`) call a required method `tgt<j>` (argument `targ<j> ^ gl ^ cyc[1:0]<<3`) that is
 mocked; in the same cycle `T<j>` stores the returned value and the argument in registers and counts
-itself in hardware (`tcnt<j>`).
+itself in hardware (`tcnt<j>`); optionally one transaction calls both mocked methods.  0-2 chain methods
+`chain[c]` (ready = `hrdy<c>`) forward their argument (x ^ 0x33 ^ gl) to a mocked method `htgt[c]` (optionally also
+the complemented argument to a second one, `htgt2[c]`) and return the mock's value (xor a constant) to the
+testbench caller in the same cycle, capturing argument and value in registers.  Optionally a caller's method has
+no inputs (called without data) and a caller owns a second method `aux[k]` so that one CallTrigger holds two calls.
+
+Mock variants (per mock): 0-3 `MethodMock.effect` blocks per invocation (each with its own log), built by
+`def_method_mock` on a function, `MethodMock(...)` directly or the class-level form bound to an instance,
+named-parameter or single-`arg` style, with or without `enable`, with or without `validate_arguments` (rejects
+a & mask == pattern), a mocked method without outputs whose mock returns None.
 
 Who does what: the kernel's cycle driver stays the environment (readiness, request and argument inputs
 from the recorded stimulus, applied in pre_observe() so that an exception escaping from a mock process
@@ -31,6 +40,10 @@ from ..kernel import Violation, h64
 from ..propbase import PropBase, make_plan, phase_at
 
 K_ECHO = 0x5A
+K_AUX = 0xA7
+K_CH = 0x33
+K_V = 0x5A5
+K_W = 0x3C3
 _STUB = None
 
 
@@ -43,13 +56,44 @@ def _stub_class():
     from transactron.core.method import Required
 
     class Stub(Elaboratable):
-        def __init__(self, ncallers, nmocks):
+        def __init__(self, ncallers, nmocks, noarg=(), aux=(), sink=(), tpair=False, chains=(), early=(),
+                     hearly=(), steady=()):
             self.nc, self.nm = ncallers, nmocks
-            self.calls = [Method(name=f"call{k}", i=[("x", 8)], o=[("cnt", 16), ("echo", 8), ("mine", 16)])
-                          for k in range(ncallers)]
-            self.tgt = [Method(name=f"tgt{j}", i=[("a", 8)], o=[("v", 12)]) for j in range(nmocks)]
+            self.noarg = [bool(noarg[k]) if k < len(noarg) else False for k in range(ncallers)]
+            self.sink = [bool(sink[j]) if j < len(sink) else False for j in range(nmocks)]
+            self.tpair = bool(tpair) and nmocks == 2
+            self.steady = [bool(steady[j]) if j < len(steady) else False for j in range(nmocks)]
+            self.nchmocks = list(chains)  # number of mocked methods (1 or 2) each chain method calls
+            self.calls = [Method(name=f"call{k}", i=[] if self.noarg[k] else [("x", 8)],
+                                 o=[("cnt", 16), ("echo", 8), ("mine", 16)]) for k in range(ncallers)]
+            # a second provided method of caller k (CallTrigger holding two calls); SimpleTestCircuit sees the list
+            self.aux_k = tuple(k for k in range(ncallers) if k < len(aux) and aux[k])
+            self.aux = [Method(name=f"aux{k}", i=[("x", 8)], o=[("mine", 16), ("echo", 8)]) for k in self.aux_k]
+            self.t_aux = tuple(self.aux)  # (tuples are not scanned by SimpleTestCircuit)
+            # chain c: provided method chain[c] -> mocked htgt (and htgt2) -> result back to the caller
+            self.chain = [Method(name=f"chain{c}", i=[("x", 8)], o=[("v", 12), ("w", 12), ("mine", 16)])
+                          for c in range(len(self.nchmocks))]
+            # all mocked methods ...
+            self.t_tgt = tuple(Method(name=f"tgt{j}", i=[("a", 8)], o=[] if self.sink[j] else [("v", 12)])
+                               for j in range(nmocks))
+            self.t_htgt = tuple(Method(name=f"htgt{c}", i=[("a", 8)], o=[("v", 12)])
+                                for c in range(len(self.nchmocks)))
+            self.t_htgt2 = tuple(Method(name=f"htgtb{c}", i=[("a", 8)], o=[("v", 12)]) if self.nchmocks[c] > 1 else None
+                                 for c in range(len(self.nchmocks)))
+            # ... those SimpleTestCircuit makes the adapters of (in its elaborate), and those the harness gives an
+            # Adapter before elaboration (attributes excluded from SimpleTestCircuit)
+            ea = [bool(early[j]) if j < len(early) else False for j in range(nmocks)]
+            he = [list(hearly[c]) + [0, 0] if c < len(hearly) else [0, 0] for c in range(len(self.nchmocks))]
+            self.tgt = [mt for j, mt in enumerate(self.t_tgt) if not ea[j]]
+            self.tgt_e = [mt for j, mt in enumerate(self.t_tgt) if ea[j]]
+            self.htgt = [mt for c, mt in enumerate(self.t_htgt) if not he[c][0]]
+            self.htgt_e = [mt for c, mt in enumerate(self.t_htgt) if he[c][0]]
+            self.htgt2 = [mt for c, mt in enumerate(self.t_htgt2) if mt is not None and not he[c][1]]
+            self.htgt2_e = [mt for c, mt in enumerate(self.t_htgt2) if mt is not None and he[c][1]]
             self.rdy_core = Signal()
             self.rdy = [Signal(name=f"rdy{k}") for k in range(ncallers)]
+            self.ardy = {k: Signal(name=f"ardy{k}") for k in self.aux_k}
+            self.hrdy = [Signal(name=f"hrdy{c}") for c in range(len(self.nchmocks))]
             self.treq = [Signal(name=f"treq{j}") for j in range(nmocks)]
             self.targ = [Signal(8, name=f"targ{j}") for j in range(nmocks)]
             self.gl = Signal(8)  # owned by the glitcher coroutine: changes between clock edges
@@ -57,6 +101,11 @@ def _stub_class():
             self.cyc = Signal(16)
             self.gcnt = Signal(16)
             self.cnt = [Signal(16, name=f"cnt{k}") for k in range(ncallers)]
+            self.acnt = {k: Signal(16, name=f"acnt{k}") for k in self.aux_k}
+            self.hcnt = [Signal(16, name=f"hcnt{c}") for c in range(len(self.nchmocks))]
+            self.hcap = [Signal(12, name=f"hcap{c}") for c in range(len(self.nchmocks))]
+            self.hcapb = [Signal(12, name=f"hcapb{c}") for c in range(len(self.nchmocks))]
+            self.hcapa = [Signal(8, name=f"hcapa{c}") for c in range(len(self.nchmocks))]
             self.tcnt = [Signal(16, name=f"tcnt{j}") for j in range(nmocks)]
             self.cap = [Signal(12, name=f"cap{j}") for j in range(nmocks)]
             self.capa = [Signal(8, name=f"capa{j}") for j in range(nmocks)]
@@ -73,30 +122,101 @@ def _stub_class():
                 return {"cnt": self.gcnt, "echo": x ^ K_ECHO ^ self.gcnt[:8]}
 
             def outer(k):
-                @def_method(m, self.calls[k], ready=self.rdy[k])
-                def _(x):
-                    m.d.sync += self.cnt[k].eq(self.cnt[k] + 1)
-                    r = core(m, x=x)
-                    return {"cnt": r.cnt, "echo": r.echo, "mine": self.cnt[k]}
+                if self.noarg[k]:
+                    @def_method(m, self.calls[k], ready=self.rdy[k])
+                    def _():
+                        m.d.sync += self.cnt[k].eq(self.cnt[k] + 1)
+                        r = core(m, x=noarg_x(k))
+                        return {"cnt": r.cnt, "echo": r.echo, "mine": self.cnt[k]}
+                else:
+                    @def_method(m, self.calls[k], ready=self.rdy[k])
+                    def _(x):
+                        m.d.sync += self.cnt[k].eq(self.cnt[k] + 1)
+                        r = core(m, x=x)
+                        return {"cnt": r.cnt, "echo": r.echo, "mine": self.cnt[k]}
 
             for k in range(self.nc):
                 outer(k)
 
-            for j in range(self.nm):
-                with Transaction(name=f"T{j}").body(m, ready=self.treq[j] ^ self.gl[6]):
-                    a = Signal(8, name=f"arg{j}")
+            def auxm(i, k):
+                @def_method(m, self.t_aux[i], ready=self.ardy[k])
+                def _(x):
+                    m.d.sync += self.acnt[k].eq(self.acnt[k] + 1)
+                    return {"mine": self.acnt[k], "echo": x ^ K_AUX}
+
+            for i, k in enumerate(self.aux_k):
+                auxm(i, k)
+
+            def chainm(c):
+                @def_method(m, self.chain[c], ready=self.hrdy[c])
+                def _(x):
+                    a = Signal(8, name=f"harg{c}")
+                    m.d.av_comb += a.eq(x ^ K_CH ^ self.gl)
+                    r = self.t_htgt[c](m, a=a)
+                    w = 0
+                    m.d.sync += [self.hcnt[c].eq(self.hcnt[c] + 1), self.hcap[c].eq(r.v), self.hcapa[c].eq(a)]
+                    if self.t_htgt2[c] is not None:
+                        r2 = self.t_htgt2[c](m, a=a ^ 0xFF)
+                        m.d.sync += self.hcapb[c].eq(r2.v)
+                        w = r2.v ^ K_W
+                    return {"v": r.v ^ K_V, "w": w, "mine": self.hcnt[c]}
+
+            for c in range(len(self.chain)):
+                chainm(c)
+
+            def targ_of(j):
+                a = Signal(8, name=f"arg{j}")
+                if self.steady[j]:  # the same argument in consecutive cycles as long as the environment holds it
+                    m.d.av_comb += a.eq(self.targ[j] ^ self.gl)
+                else:
                     m.d.av_comb += a.eq(self.targ[j] ^ self.gl ^ (self.cyc[:2] << 3))  # also changes at the clock edge
-                    r = self.tgt[j](m, a=a)
-                    m.d.sync += [self.cap[j].eq(r.v), self.capa[j].eq(a), self.tcnt[j].eq(self.tcnt[j] + 1)]
+                return a
+
+            def call_tgt(j):
+                a = targ_of(j)
+                r = self.t_tgt[j](m, a=a)
+                m.d.sync += [self.capa[j].eq(a), self.tcnt[j].eq(self.tcnt[j] + 1)]
+                if not self.sink[j]:
+                    m.d.sync += self.cap[j].eq(r.v)
+
+            if self.tpair:  # one transaction calls both mocked methods
+                with Transaction(name="T0").body(m, ready=self.treq[0] ^ self.gl[6]):
+                    call_tgt(0)
+                    call_tgt(1)
+            else:
+                for j in range(self.nm):
+                    with Transaction(name=f"T{j}").body(m, ready=self.treq[j] ^ self.gl[6]):
+                        call_tgt(j)
             return m
 
-    Stub.__annotations__ = {"tgt": Required[list[Method]]}  # -> SimpleTestCircuit uses Adapter for tgt
+    # -> SimpleTestCircuit uses Adapter for these
+    Stub.__annotations__ = {"tgt": Required[list[Method]], "htgt": Required[list[Method]],
+                            "htgt2": Required[list[Method]]}
     _STUB = Stub
     return Stub
 
 
+def noarg_x(k):
+    return (0x11 * (k + 3)) & 0xFF
+
+
 def mock_value(j, a, n):
     return (a * 5 + n * 3 + j + 1) & 0xFFF
+
+
+def arg_valid(va, a):
+    """validate_arguments predicate of a mock: [mask, pat] rejects arguments with a & mask == pat."""
+    return va is None or (a & va[0]) != va[1]
+
+
+def mock_early(mc):
+    """The mock (and the Adapter of its method) is made before the circuit is elaborated.  A validating mock
+    always is: its constructor turns the adapter's argument validation on, which elaboration has to see."""
+    return bool(mc.get("early") or mc.get("validate"))
+
+
+def mock_form(mc):
+    return mc.get("form", 1 if mc.get("direct") else 0)  # 0 def_method_mock, 1 MethodMock(...), 2 class-level bound
 
 
 class Scen(CompScenario):
@@ -105,8 +225,18 @@ class Scen(CompScenario):
 
         c = self.cfg
         self.nc, self.nm = len(c["callers"]), len(c["mocks"])
-        self.stub = _stub_class()(self.nc, self.nm)
-        self.stc = SimpleTestCircuit(self.stub)
+        self.chains = c.get("chains") or []
+        self.noarg = [bool(x) for x in (c.get("noarg") or [])] + [False] * self.nc
+        self.auxf = [bool(x) for x in (c.get("aux") or [])] + [False] * self.nc
+        self.tpair = bool(c.get("tpair")) and self.nm == 2
+        self.stub = _stub_class()(self.nc, self.nm, noarg=self.noarg, aux=self.auxf,
+                                  sink=[m.get("sink") for m in c["mocks"]], tpair=self.tpair,
+                                  chains=[len(ch["mocks"]) for ch in self.chains],
+                                  early=[mock_early(m) for m in c["mocks"]],
+                                  steady=[m.get("steady") for m in c["mocks"]],
+                                  hearly=[[mock_early(m) for m in ch["mocks"]] for ch in self.chains])
+        # the mocked methods of "early" mocks get their Adapter from the harness, before elaboration
+        self.stc = SimpleTestCircuit(self.stub, exclude=["tgt_e", "htgt_e", "htgt2_e"])
         self.top.add("stc", self.stc)
         s = self.stub
         # The environment inputs are applied by pre_observe() (called by the cycle driver right where it would
@@ -115,30 +245,78 @@ class Scen(CompScenario):
         self.drive = {"rdy_core": s.rdy_core}
         for k in range(self.nc):
             self.drive[f"rdy{k}"] = s.rdy[k]
+        for k in s.aux_k:
+            self.drive[f"ardy{k}"] = s.ardy[k]
+        for ci in range(len(self.chains)):
+            self.drive[f"hrdy{ci}"] = s.hrdy[ci]
         for j in range(self.nm):
             self.drive[f"treq{j}"] = s.treq[j]
             self.drive[f"targ{j}"] = s.targ[j]
         self.driven: dict = {}
         self.add_obs("cyc", s.cyc)
         self.add_obs("gcnt", s.gcnt)
+        # ports: provided methods driven through a TestbenchIO; counter = hardware executions of the method body
+        self.ports: list = []  # (port name, counter observation)
         for k in range(self.nc):
             self.add_obs(f"cnt{k}", s.cnt[k])
+            self.ports.append((f"c{k}", f"cnt{k}"))
+        for k in s.aux_k:
+            self.add_obs(f"acnt{k}", s.acnt[k])
+            self.ports.append((f"a{k}", f"acnt{k}"))
+        for ci in range(len(self.chains)):
+            self.add_obs(f"hcnt{ci}", s.hcnt[ci])
+            self.add_obs(f"hcap{ci}", s.hcap[ci])
+            self.add_obs(f"hcapb{ci}", s.hcapb[ci])
+            self.add_obs(f"hcapa{ci}", s.hcapa[ci])
+            self.ports.append((f"h{ci}", f"hcnt{ci}"))
         for j in range(self.nm):
             self.add_obs(f"tcnt{j}", s.tcnt[j])
             self.add_obs(f"cap{j}", s.cap[j])
             self.add_obs(f"capa{j}", s.capa[j])
         self.add_obs("py", s.mb)
+        self.regs = [n for n in self.obs if n != "py"]
+        self.sigs = dict(self.obs)
+        # mocks: name, id in mock_value, configuration, hardware counter / captured value / captured argument (the
+        # second mock of a chain receives the complemented argument), request input (transactions only)
+        self.mocks: list = []
+        for j in range(self.nm):
+            self.mocks.append({"name": f"m{j}", "id": j, "cfg": c["mocks"][j], "cnt": f"tcnt{j}", "cap": f"cap{j}",
+                               "capa": f"capa{j}", "flip": 0, "req": f"treq{0 if self.tpair else j}",
+                               "method": s.t_tgt[j], "late": "tgt", "sink": bool(c["mocks"][j].get("sink"))})
+        for ci, ch in enumerate(self.chains):
+            for b, mc in enumerate(ch["mocks"][:2]):
+                self.mocks.append({"name": ("n", "o")[b] + str(ci), "id": 10 + 2 * ci + b, "cfg": mc, "cnt": f"hcnt{ci}",
+                                   "cap": ("hcap", "hcapb")[b] + str(ci), "capa": f"hcapa{ci}", "flip": 0xFF * b,
+                                   "req": None, "method": (s.t_htgt, s.t_htgt2)[b][ci], "late": ("htgt", "htgt2")[b],
+                                   "sink": False})
         # python-side observations
         self.pyhash = 0
         self.errors: list = []
-        self.rets = [[] for _ in range(self.nc)]  # (idx, kind, x, c0, c1, result or None, sampled)
-        self.inflight = [None] * self.nc
-        self.nret = [0] * self.nc  # successful returns
-        self.mst = [{"n": 0, "inv": 0, "encalls": 0, "log": []} for _ in range(self.nm)]
+        self.rets = {p: [] for p, _ in self.ports}  # (idx, kind, x, c0, c1, result or None, sampled)
+        self.inflight = {p: None for p, _ in self.ports}
+        self.nret = {p: 0 for p, _ in self.ports}  # successful returns
+        self.loose = {p: False for p, _ in self.ports}  # until_all_done may repeat a call: no running bound
+        for k in range(self.nc):
+            if any(op[0] == "paira" for op in c["callers"][k]) and k in s.aux_k:
+                self.loose[f"c{k}"] = self.loose[f"a{k}"] = True
+        self.mst = [{"n": 0, "inv": 0, "vinv": 0, "encalls": 0, "elog": [[] for _ in range(max(1, mk["cfg"].get("neff", 1)))]}
+                    for mk in self.mocks]
         self.hw: list = []
         self.stimlog: list = []
         self._ctx = None
         self.held = [0] * self.nm
+        # early mocks: Adapter and MethodMock exist before the circuit is elaborated (the mock's constructor is what
+        # turns the adapter's argument validation on)
+        from transactron.lib import Adapter
+        from transactron.testing import TestbenchIO
+        from transactron.testing.method_mock import MethodMock, def_method_mock
+
+        self.mms: dict = {}
+        for mi, mk in enumerate(self.mocks):
+            if mock_early(mk["cfg"]):
+                tb = TestbenchIO(Adapter.create(mk["method"]))
+                self.top.add("tb_" + mk["name"], tb)
+                self.mms[mi] = self.make_mock(mi, tb, MethodMock, def_method_mock)
         return self.top
 
     def pynote(self, rec):
@@ -150,53 +328,125 @@ class Scen(CompScenario):
         from transactron.testing.method_mock import MethodMock, def_method_mock
 
         c = self.cfg
-        tbs = self.stc.calls
         units = {}
         for k in range(self.nc):
-            units[f"c{k}"] = [("background", self.make_caller(k, tbs[k], c["callers"][k]))]
-        for j in range(self.nm):
-            mm = self.make_mock(j, c["mocks"][j], MethodMock, def_method_mock)
-            units[f"m{j}"] = [("process", mm.output_process), ("background", mm.effect_process)]
+            tb2 = self.stc.aux[self.stub.aux_k.index(k)] if k in self.stub.aux_k else None
+            units[f"c{k}"] = [("background", self.make_caller(f"c{k}", self.stc.calls[k], c["callers"][k],
+                                                              tb2=tb2, port2=f"a{k}", noarg=self.noarg[k]))]
+        for ci, ch in enumerate(self.chains):
+            units[f"h{ci}"] = [("background", self.make_caller(f"h{ci}", self.stc.chain[ci], ch["script"]))]
+        for mi, mk in enumerate(self.mocks):
+            if mi in self.mms:
+                mm = self.mms[mi]
+            else:  # the adapter made by SimpleTestCircuit for this method
+                late = getattr(self.stub, mk["late"])
+                tb = getattr(self.stc, mk["late"])[[id(x) for x in late].index(id(mk["method"]))]
+                mm = self.make_mock(mi, tb, MethodMock, def_method_mock)
+            procs = [("process", mm.output_process)]
+            if mm.validate_arguments is not None:  # as PysimSimulator.add_mock does
+                procs.append(("process", mm.validate_arguments_process))
+            units[mk["name"]] = procs + [("background", mm.effect_process)]
         if c.get("glitch"):
             units["g"] = [("background", self.make_glitcher(c["glitch"]))]
         order = [u for u in c["order"] if u in units] + sorted(u for u in units if u not in c["order"])
         self.extra_processes = [p for u in order for p in units[u]]
 
-    def make_mock(self, j, mc, MethodMock, def_method_mock):
-        st = self.mst[j]
-        pattern = mc["enable"]
+    def make_mock(self, mi, tb, MethodMock, def_method_mock):
+        mk = self.mocks[mi]
+        mc, mid, st = mk["cfg"], mk["id"], self.mst[mi]
+        pattern = mc["enable"]  # None: the mock is built without `enable` (default: always enabled)
+        neff = mc.get("neff", 1)
+        va = mc.get("validate")
+        sink = mk["sink"]
+        argstyle = bool(mc.get("argstyle"))
 
         def enable():
             i = st["encalls"]
             st["encalls"] += 1
             return bool(pattern[i % len(pattern)])
 
-        def fn(a):
+        def body(a):
             st["inv"] += 1
             n = st["n"]
-            v = mock_value(j, a, n)
+            v = 0 if sink else mock_value(mid, a, n)
 
-            @MethodMock.effect
-            def _():
-                st["n"] += 1
-                st["log"].append((a, v, n))
-                self.pynote(("eff", j, a, v, n))
+            def add_effect(e):
+                @MethodMock.effect
+                def _():
+                    if e == 0:
+                        st["n"] += 1
+                        self.pynote(("eff", mid, a, v, n))
+                    st["elog"][e].append((a, v, n))
 
-            return {"v": v}
+            for e in range(neff):  # 0, 1, 2 or 3 effect blocks registered by one invocation
+                add_effect(e)
+            return None if sink else {"v": v}
 
-        delay = mc["delay_ns"] * 1e-9
-        if mc.get("direct"):
-            return MethodMock(self.stc.tgt[j].adapter, fn, enable=enable, delay=delay)
-        return def_method_mock(lambda: self.stc.tgt[j], enable=enable, delay=delay)(fn)()
+        def valid(a):
+            st["vinv"] += 1
+            return arg_valid(va, a)
 
-    def make_caller(self, k, tb, script):
+        if argstyle:  # single `arg` parameter receiving all arguments
+            def fn(arg):
+                return body(arg["a"])
+
+            def vfn(arg):
+                return valid(arg["a"])
+        else:  # named parameters
+            def fn(a):
+                return body(a)
+
+            def vfn(a):
+                return valid(a)
+
+        kw: dict = {"delay": mc["delay_ns"] * 1e-9}
+        form = mock_form(mc)
+        if form == 2:
+            # class-level form, as the library's own tests write it: everything takes `self`
+            if pattern is not None:
+                kw["enable"] = lambda self_: enable()
+            if va is not None:
+                kw["validate_arguments"] = (lambda self_, arg: vfn(arg)) if argstyle else (lambda self_, a: vfn(a))
+            if argstyle:
+                def method(self_, arg):
+                    assert self_ is holder
+                    return fn(arg)
+            else:
+                def method(self_, a):
+                    assert self_ is holder
+                    return fn(a)
+
+            Holder = type("Holder", (), {"tb": tb, "mock": def_method_mock(lambda self_: self_.tb, **kw)(method)})
+            holder = Holder()
+            return holder.mock()
+        if pattern is not None:
+            kw["enable"] = enable
+        if va is not None:
+            kw["validate_arguments"] = vfn
+        if form == 1:
+            return MethodMock(tb.adapter, fn, **kw)
+        return def_method_mock(lambda: tb, **kw)(fn)()
+
+    def make_caller(self, port, tb, script, tb2=None, port2=None, noarg=False):
         from transactron.testing import CallTrigger
         from transactron.testing.simulator import tick
 
         s = self.stub
+        kindp = port[0]
 
-        def unpack(r):
-            return None if r is None else (r.cnt, r.echo, r.mine)
+        def unpack(r, kp=kindp):
+            if r is None:
+                return None
+            if kp == "c":
+                return (r.cnt, r.echo, r.mine)
+            if kp == "a":
+                return (r.mine, r.echo)
+            return (r.v, r.w, r.mine)
+
+        def trig_call(t, x):
+            if noarg:
+                return t.call(tb)  # a method without inputs: no data at all
+            return t.call(tb, x=x)
 
         async def caller(ctx):
             try:
@@ -205,32 +455,56 @@ class Scen(CompScenario):
                     if kind == "gap":
                         await tick(ctx, x)
                         continue
+                    pair = kind in ("pair", "pairu", "paira")
+                    if pair and tb2 is None:
+                        kind, pair = {"pair": "try", "pairu": "call", "paira": "call"}[kind], False
                     c0 = ctx.get(s.cyc)
-                    self.inflight[k] = (idx, kind, x, c0)
+                    self.inflight[port] = (idx, kind, x, c0)
                     sampled = None
-                    if kind == "call":
-                        r = unpack(await tb.call(ctx, x=x))
+                    r2 = None
+                    if pair:
+                        x2 = op[2]
+                        self.inflight[port2] = (idx, kind, x2, c0)
+                        t = trig_call(CallTrigger(ctx), x).call(tb2, {"x": x2})
+                        if kind == "pair":
+                            r, r2 = await t
+                        elif kind == "pairu":
+                            r, r2 = await t.until_done()
+                        else:
+                            r, r2 = await t.until_all_done()
+                        r, r2 = unpack(r), unpack(r2, "a")
+                    elif kind == "call":
+                        r = unpack(await (tb.call(ctx) if noarg else tb.call(ctx, x=x)))
                     elif kind == "try":
-                        r = unpack(await tb.call_try(ctx, {"x": x}))
+                        r = unpack(await (tb.call_try(ctx) if noarg else tb.call_try(ctx, {"x": x})))
                     elif kind == "trig":
                         if op[2]:
-                            scyc, r, sg = await CallTrigger(ctx).sample(s.cyc).call(tb, x=x).sample(s.gcnt)
+                            scyc, r, sg = await trig_call(CallTrigger(ctx).sample(s.cyc), x).sample(s.gcnt)
+                        elif noarg:
+                            r, scyc, sg = await CallTrigger(ctx).call(tb).sample(s.cyc, s.gcnt)
                         else:
                             r, scyc, sg = await CallTrigger(ctx).call(tb, {"x": x}).sample(s.cyc, s.gcnt)
                         r, sampled = unpack(r), (scyc, sg)
                     elif kind == "trigu":
-                        (r,) = await CallTrigger(ctx).call(tb, x=x).until_done()
+                        (r,) = await trig_call(CallTrigger(ctx), x).until_done()
                         r = unpack(r)
                     else:  # trigus: until_done() on a trigger that also samples a plain value
-                        r, scyc = await CallTrigger(ctx).call(tb, x=x).sample(s.cyc).until_done()
+                        r, scyc = await trig_call(CallTrigger(ctx), x).sample(s.cyc).until_done()
                         r, sampled = unpack(r), (scyc, None)
                     c1 = ctx.get(s.cyc)
-                    self.inflight[k] = None
+                    self.inflight[port] = None
                     if r is not None:
-                        self.nret[k] += 1
+                        self.nret[port] += 1
                     rec = (idx, kind, x, c0, c1, r, sampled)
-                    self.rets[k].append(rec)
-                    self.pynote(("ret", k) + rec)
+                    self.rets[port].append(rec)
+                    self.pynote(("ret", port) + rec)
+                    if pair:
+                        self.inflight[port2] = None
+                        if r2 is not None:
+                            self.nret[port2] += 1
+                        rec = (idx, kind, op[2], c0, c1, r2, None)
+                        self.rets[port2].append(rec)
+                        self.pynote(("ret", port2) + rec)
             except BaseException as e:  # re-raised by the driver (check / finish)
                 self.errors.append(e)
 
@@ -275,6 +549,11 @@ class Scen(CompScenario):
             if rng.random() < 0.7:
                 self.held[j] = rng.getrandbits(8)
             stim[f"targ{j}"] = self.held[j]
+        # drawn after everything older configurations draw
+        for k in self.stub.aux_k:
+            stim[f"ardy{k}"] = int(rng.random() < max(po, 0.3))
+        for ci in range(len(self.chains)):
+            stim[f"hrdy{ci}"] = int(rng.random() < po)
         return stim
 
     # ---- oracle -----------------------------------------------------------------------------
@@ -301,64 +580,101 @@ class Scen(CompScenario):
         self.hw.append(obs)
         self.stimlog.append(stim)
         # bounds that hold whatever the order inside a cycle is; the exact comparison is in finish()
-        for k in range(self.nc):
-            got, ex = self.nret[k], obs[f"cnt{k}"]
+        for p, cn in self.ports:
+            got, ex = self.nret[p], obs[cn]
+            if self.loose[p]:
+                continue
             self.expect(got <= ex <= got + 1, "returns-vs-executions",
-                        f"caller {k}: {got} successful returns but the method body ran {ex} times "
-                        f"(at most one call can be in flight)", who=f"c{k}")
-        for j in range(self.nm):
-            n, ex = self.mst[j]["n"], obs[f"tcnt{j}"]
-            prev = self.hw[-2][f"tcnt{j}"] if cyc else 0
+                        f"port {p}: {got} successful returns but the method body ran {ex} times "
+                        f"(at most one call can be in flight)", who=p)
+        for mi, mk in enumerate(self.mocks):
+            if mk["cfg"].get("neff", 1) == 0:
+                continue  # no effect block: nothing to count
+            n, ex = self.mst[mi]["n"], obs[mk["cnt"]]
+            prev = self.hw[-2][mk["cnt"]] if cyc else 0
             self.expect(n <= ex, "mock-effects-ahead",
-                        f"mock {j}: effects applied {n} times, the calling transaction ran {ex} times", who=f"m{j}")
+                        f"mock {mk['name']}: effects applied {n} times, the calling body ran {ex} times", who=mk["name"])
             self.expect(n >= prev, "mock-effects-behind",
-                        f"mock {j}: effects applied {n} times, the calling transaction had run {prev} times "
-                        f"a cycle ago", who=f"m{j}")
+                        f"mock {mk['name']}: effects applied {n} times, the calling body had run {prev} times "
+                        f"a cycle ago", who=mk["name"])
         if cyc:
-            p = self.hw[-2]
-            ex = tuple(obs[f"cnt{k}"] - p[f"cnt{k}"] for k in range(self.nc))
-            tx = tuple(obs[f"tcnt{j}"] - p[f"tcnt{j}"] for j in range(self.nm))
-            fl = tuple(None if f is None else f[1] for f in self.inflight)
+            pv = self.hw[-2]
+            ex = tuple(obs[cn] - pv[cn] for _, cn in self.ports)
+            tx = tuple(obs[f"tcnt{j}"] - pv[f"tcnt{j}"] for j in range(self.nm))
+            fl = tuple(None if self.inflight[p] is None else self.inflight[p][1] for p, _ in self.ports)
             self.visit((ex, tx, fl), nontrivial=any(ex) or any(tx))
+
+    def want_result(self, port, x, te, hw):
+        """What the hardware produced for a call of `port` with argument x executing in cycle te."""
+        kp, ix = port[0], int(port[1:])
+        if kp == "c":
+            g = hw[te]["gcnt"]
+            if self.noarg[ix]:
+                x = noarg_x(ix)
+            return (g, (x ^ K_ECHO ^ g) & 0xFF, hw[te][f"cnt{ix}"])
+        if kp == "a":
+            return (hw[te][f"acnt{ix}"], (x ^ K_AUX) & 0xFF)
+        w = (hw[te + 1][f"hcapb{ix}"] ^ K_W) if len(self.chains[ix]["mocks"]) > 1 else 0
+        return (hw[te + 1][f"hcap{ix}"] ^ K_V, w, hw[te][f"hcnt{ix}"])
 
     def finish(self):
         self.raise_errors()
         if self._ctx is None:
             return
-        s, ctx = self.stub, self._ctx
-        last = {"cyc": ctx.get(s.cyc), "gcnt": ctx.get(s.gcnt)}
-        for k in range(self.nc):
-            last[f"cnt{k}"] = ctx.get(s.cnt[k])
-        for j in range(self.nm):
-            last[f"tcnt{j}"] = ctx.get(s.tcnt[j])
-            last[f"cap{j}"] = ctx.get(s.cap[j])
-            last[f"capa{j}"] = ctx.get(s.capa[j])
+        ctx = self._ctx
+        last = {name: ctx.get(self.sigs[name]) for name in self.regs}
         hw = self.hw + [last]
         T = len(self.hw)
         stimlog = self.stimlog
-        intervals = [[None] * T for _ in range(self.nc)]
+        glitch = bool(self.cfg.get("glitch"))
+        intervals = {p: [None] * T for p, _ in self.ports}
 
-        for k in range(self.nc):
-            who = f"c{k}"
-            ex = [hw[t + 1][f"cnt{k}"] - hw[t][f"cnt{k}"] for t in range(T)]
-            recs = list(self.rets[k])
+        for p, cn in self.ports:
+            who = p
+            ex = [hw[t + 1][cn] - hw[t][cn] for t in range(T)]
+            recs = list(self.rets[p])
             prev = None
+            discarded = 0
             for (idx, kind, x, c0, c1, r, sampled) in recs:
-                what = f"caller {k} op {idx} {kind}(x={x}) issued in cycle {c0}, returned in cycle {c1}"
+                what = f"port {p} op {idx} {kind}(x={x}) issued in cycle {c0}, returned in cycle {c1}"
                 if not 0 <= c0 <= c1 <= T:
                     raise RuntimeError(f"{what}: malformed interval (T={T})")
                 for t in range(c0, c1):
-                    intervals[k][t] = idx
+                    intervals[p][t] = idx
                 # the executing cycle of the call is the cycle of [c0, c1) in which the method body ran: exactly one
                 # for a result, none for None (when within the interval it runs is not stated)
                 execs = [t for t in range(c0, c1) if ex[t]]
                 if c1 == c0:
                     self.hit("helper_returned_in_the_cycle_it_was_issued")
-                if r is None:
-                    self.expect(kind in ("try", "trig", "trigus"), "blocking-call-returned-none", what, who=who, op=kind)
+                if kind == "paira":
+                    # until_all_done() repeats the calls until all succeed in one cycle: earlier successes are executed
+                    # and dropped by design; only "the result belongs to an executing cycle" is judged
+                    self.hit("until_all_done")
+                    if len(execs) > 1:
+                        self.hit("until_all_done_repeated_a_call", len(execs) - 1)
+                        discarded += len(execs) - 1
+                    if r is None:
+                        self.hit("until_all_done_returned_none")
+                        discarded += len(execs)
+                    else:
+                        self.expect(len(execs) >= 1, "returned-without-execution",
+                                    f"{what}: result {r} but the method body did not run in any cycle of [{c0}, {c1})",
+                                    who=who, op=kind)
+                        want = self.want_result(p, x, execs[-1], hw)
+                        self.expect(r == want, "result-data-mismatch",
+                                    f"{what}: result {r}, the executing cycle {execs[-1]} produced {want}", who=who,
+                                    op=kind)
+                elif r is None:
+                    self.expect(kind in ("try", "trig", "trigus", "pair", "pairu"), "blocking-call-returned-none", what,
+                                who=who, op=kind)
                     self.expect(not execs, "none-but-executed",
                                 f"{what}: result None although the method body ran in cycle(s) {execs}", who=who, op=kind)
                     self.hit(f"{kind}_none")
+                    if p[0] == "h" and not glitch:
+                        a = (x ^ K_CH) & 0xFF
+                        if any(not arg_valid(mk["cfg"].get("validate"), a ^ mk["flip"]) for mk in self.mocks
+                               if mk["name"] in (f"n{p[1:]}", f"o{p[1:]}")):
+                            self.hit("chain_call_rejected_argument_none")
                 else:
                     self.expect(len(execs) >= 1, "returned-without-execution",
                                 f"{what}: result {r} but the method body did not run in any cycle of [{c0}, {c1})",
@@ -368,10 +684,13 @@ class Scen(CompScenario):
                     te = execs[0]
                     if te != c1 - 1:
                         self.hit("executed_before_last_cycle_of_the_call")
-                    g = hw[te]["gcnt"]
-                    want = (g, (x ^ K_ECHO ^ g) & 0xFF, hw[te][f"cnt{k}"])
+                    want = self.want_result(p, x, te, hw)
                     self.expect(r == want, "result-data-mismatch",
                                 f"{what}: result {r}, the executing cycle {te} produced {want}", who=who, op=kind)
+                    if p[0] == "h":
+                        self.check_chain_result(p, what, kind, x, te, r, hw, glitch)
+                    if p[0] == "c" and self.noarg[int(p[1:])]:
+                        self.hit("call_without_data_done")
                     if kind in ("call", "trigu"):
                         self.hit(f"{kind}_immediate" if c1 == c0 + 1 else f"{kind}_waited")
                     else:
@@ -384,68 +703,160 @@ class Scen(CompScenario):
                     if c1 == 0 or not (scyc == (c1 - 1) & 0xFFFF and (sg is None or sg == hw[c1 - 1]["gcnt"])):
                         self.hit("trigger_sample_not_from_last_cycle_of_the_call")
                 prev = (idx, kind, x, c0, c1, r)
-            fl = self.inflight[k]
+            fl = self.inflight[p]
             unreported = 0
             if fl is not None:
                 idx, kind, x, c0 = fl
                 self.hit("in_flight_at_end")
                 for t in range(c0, T):
-                    intervals[k][t] = idx
+                    intervals[p][t] = idx
                 # an execution in the last simulated cycle may simply not have been reported yet
                 ran = [t for t in range(c0, T - 1) if ex[t]]
-                self.expect(not ran, "executed-but-never-returned",
-                            f"caller {k} op {idx} {kind}(x={x}) issued in cycle {c0} has not returned by cycle {T}, "
-                            f"yet the method body ran in cycle(s) {ran}", who=who, op=kind)
+                if kind == "paira":
+                    discarded += len(ran)
+                else:
+                    self.expect(not ran, "executed-but-never-returned",
+                                f"port {p} op {idx} {kind}(x={x}) issued in cycle {c0} has not returned by cycle {T}, "
+                                f"yet the method body ran in cycle(s) {ran}", who=who, op=kind)
                 if T and T - 1 >= c0 and ex[T - 1]:
                     self.hit("executed_in_last_cycle_not_yet_returned")
                     unreported = 1
-            stray = [t for t in range(T) if ex[t] and intervals[k][t] is None]
+            stray = [t for t in range(T) if ex[t] and intervals[p][t] is None]
             self.expect(not stray, "execution-outside-any-call",
-                        f"caller {k}: the method body ran in cycle(s) {stray[:6]} while no call of this caller was "
+                        f"port {p}: the method body ran in cycle(s) {stray[:6]} while no call of this caller was "
                         f"pending (enable left asserted)", who=who)
-            self.expect(self.nret[k] == hw[T][f"cnt{k}"] - unreported, "returns-differ-from-executions",
-                        f"caller {k}: {self.nret[k]} successful returns, {hw[T][f'cnt{k}']} executions"
-                        + (" (one of them in the last cycle, call still pending)" if unreported else ""), who=who)
+            self.expect(self.nret[p] == hw[T][cn] - unreported - discarded, "returns-differ-from-executions",
+                        f"port {p}: {self.nret[p]} successful returns, {hw[T][cn]} executions"
+                        + (" (one of them in the last cycle, call still pending)" if unreported else "")
+                        + (f" ({discarded} repeated by until_all_done)" if discarded else ""), who=who)
+        cports = [(p, cn) for p, cn in self.ports if p[0] == "c"]
         for t in range(T):
-            pend = [k for k in range(self.nc) if intervals[k][t] is not None]
+            pend = [(p, cn) for p, cn in cports if intervals[p][t] is not None]
             if len(pend) >= 2:
-                nex = sum(hw[t + 1][f"cnt{k}"] - hw[t][f"cnt{k}"] for k in pend)
+                nex = sum(hw[t + 1][cn] - hw[t][cn] for _, cn in pend)
                 if nex == 1:
                     self.hit("contended_cycle_one_winner")
                 elif nex == 0:
                     self.hit("contended_cycle_blocked")
+        for k in self.stub.aux_k:
+            both = sum(1 for t in range(T) if hw[t + 1][f"cnt{k}"] != hw[t][f"cnt{k}"]
+                       and hw[t + 1][f"acnt{k}"] != hw[t][f"acnt{k}"])
+            if both:
+                self.hit("two_calls_of_one_trigger_in_one_cycle", both)
 
-        for j in range(self.nm):
-            who = f"m{j}"
-            st = self.mst[j]
-            tx = [hw[t + 1][f"tcnt{j}"] - hw[t][f"tcnt{j}"] for t in range(T)]
+        for mi, mk in enumerate(self.mocks):
+            who = mk["name"]
+            st, mc = self.mst[mi], mk["cfg"]
+            neff = mc.get("neff", 1)
+            va = mc.get("validate")
+            cn = mk["cnt"]
+            tx = [hw[t + 1][cn] - hw[t][cn] for t in range(T)]
             runs = [t for t in range(T) if tx[t]]
-            log = st["log"]
-            nexec = hw[T][f"tcnt{j}"]
+            nexec = hw[T][cn]
             pending_last = 1 if (T and tx[T - 1]) else 0
-            self.expect(nexec - pending_last <= len(log) <= nexec, "mock-effects-count",
-                        f"mock {j}: effects applied {len(log)} times, calling transaction ran {nexec} times", who=who)
-            for i, t in enumerate(runs[:len(log)]):
+            # every effect block: exactly once per executed call, none for a call that did not execute
+            for e in range(neff):
+                ne = len(st["elog"][e])
+                self.expect(nexec - pending_last <= ne <= nexec, "mock-effects-count",
+                            f"mock {who}: effect block {e} of {neff} applied {ne} times, the calling body ran "
+                            f"{nexec} times", who=who, neff=neff)
+                self.expect(st["elog"][e] == st["elog"][0], "mock-effects-differ",
+                            f"mock {who}: effect block {e} was applied for other invocations than block 0: "
+                            f"{st['elog'][e][-3:]} / {st['elog'][0][-3:]}", who=who, neff=neff)
+            self.hit(f"mock_with_{neff}_effects", len(runs))
+            log = st["elog"][0]
+            for i, t in enumerate(runs):
+                cap, capa = hw[t + 1][mk["cap"]], hw[t + 1][mk["capa"]] ^ mk["flip"]
+                # a call whose argument the mock's validate_arguments rejects does not execute
+                self.expect(arg_valid(va, capa), "executed-with-rejected-argument",
+                            f"mock {who}: execution #{i} in cycle {t} with argument {capa}, which validate_arguments "
+                            f"(reject a & mask == pattern, [mask, pattern] = {va}) rejects", who=who)
+                if neff == 0:
+                    # no effects, no state: the value is a function of the argument alone
+                    v = 0 if mk["sink"] else mock_value(mk["id"], capa, 0)
+                    self.expect(cap == v, "mock-value-not-captured",
+                                f"mock {who}: execution #{i} in cycle {t}: the caller captured value {cap} for argument "
+                                f"{capa}; the mock function returns {v} for it", who=who)
+                    continue
+                if i >= len(log):
+                    continue
                 a, v, n = log[i]
-                cap, capa = hw[t + 1][f"cap{j}"], hw[t + 1][f"capa{j}"]
                 self.expect((cap, capa) == (v, a), "mock-value-not-captured",
-                            f"mock {j}: execution #{i} in cycle {t}: the effect belongs to the invocation with "
-                            f"argument {a} returning {v}; the transaction captured argument {capa}, value {cap}",
+                            f"mock {who}: execution #{i} in cycle {t}: the effect belongs to the invocation with "
+                            f"argument {a} returning {v}; the caller captured argument {capa}, value {cap}",
                             who=who)
                 if n != i:
                     self.hit("mock_function_saw_unapplied_effects")
             self.hit("mock_exec", len(runs))
-            if st["inv"] > len(log):
+            same = sum(1 for i in range(1, len(runs)) if runs[i] == runs[i - 1] + 1
+                       and hw[runs[i] + 1][mk["capa"]] == hw[runs[i]][mk["capa"]])
+            if same:
+                self.hit("mock_consecutive_calls_same_argument", same)
+            form = mock_form(mc)
+            self.hit(("mock_def_method_mock", "mock_direct", "mock_class_level_bound")[form], len(runs))
+            if mc.get("argstyle"):
+                self.hit("mock_single_arg_style", len(runs))
+            if mc["enable"] is None:
+                self.hit("mock_default_enable", len(runs))
+            if mk["sink"]:
+                self.hit("mock_returning_none_exec", len(runs))
+            if mock_early(mc):
+                self.hit("mock_made_before_elaboration", len(runs))
+            if va is not None:
+                self.hit("mock_validating_exec", len(runs))
+                if st["vinv"]:
+                    self.hit("validate_arguments_evaluated", st["vinv"])
+            if mk["name"][0] in "no":
+                self.hit("chain_mock_exec", len(runs))
+            if mk["name"][0] == "o" or (self.tpair and mk["name"][0] == "m"):
+                self.hit("two_mocks_in_one_body_exec", len(runs))
+            if neff and st["inv"] > len(log):
                 self.hit("mock_function_reevaluated", st["inv"] - len(log))
-            if self.cfg["mocks"][j]["delay_ns"]:
+            if mc["delay_ns"]:
                 self.hit("mock_exec_with_delay", len(runs))
-            for t in range(T):
-                if not tx[t] and stimlog[t].get(f"treq{j}") and not self.cfg.get("glitch"):
-                    self.hit("mock_disabled_blocked_request")
-        if self.cfg.get("glitch"):
+            if mk["req"] is not None and not glitch:
+                j = mk["id"]
+                for t in range(T):
+                    if not stimlog[t].get(mk["req"]):
+                        continue
+                    if not tx[t]:
+                        self.hit("mock_disabled_blocked_request")
+                    a = (stimlog[t].get(f"targ{j}", 0) ^ (0 if mc.get("steady") else (t & 3) << 3)) & 0xFF
+                    if not arg_valid(va, a):
+                        self.hit("request_with_rejected_argument")
+        if glitch:
             self.hit("glitch_run")
-        self.notes["returns"] = list(self.nret)
+        self.notes["returns"] = [self.nret[p] for p, _ in self.ports]
         self.notes["effects"] = [st["n"] for st in self.mst]
+
+    def check_chain_result(self, p, what, kind, x, te, r, hw, glitch):
+        """TestbenchIO -> chain method -> mocked method(s) -> back, all in cycle te: the caller's result is the value
+        the mock function returned for the invocation whose effects were applied for this very execution."""
+        ci = int(p[1:])
+        i = hw[te][f"hcnt{ci}"]  # executions before this one = index of this execution
+        capa = hw[te + 1][f"hcapa{ci}"]
+        if not glitch:
+            self.expect(capa == (x ^ K_CH) & 0xFF, "chain-argument-mismatch",
+                        f"{what}: the mocked method received {capa}, the chain method passes {(x ^ K_CH) & 0xFF}",
+                        who=p, op=kind)
+        for b, mk in enumerate(m for m in self.mocks if m["name"] in (f"n{ci}", f"o{ci}")):
+            mi = self.mocks.index(mk)
+            st, mc = self.mst[mi], mk["cfg"]
+            a = capa ^ mk["flip"]
+            got = r[b] ^ (K_V, K_W)[b]
+            if mc.get("neff", 1) == 0:
+                v = mock_value(mk["id"], a, 0)
+            elif i < len(st["elog"][0]):
+                la, v, _n = st["elog"][0][i]
+                self.expect(la == a, "mock-value-not-captured",
+                            f"{what}: execution #{i} of mock {mk['name']}: effects were applied for the invocation "
+                            f"with argument {la}, the call carried {a}", who=mk["name"], op=kind)
+            else:
+                continue  # executed in the last cycle: effects not applied yet
+            self.expect(got == v, "result-not-the-mock-value",
+                        f"{what}: the caller received {got} from mock {mk['name']} (execution #{i}, argument {a}); "
+                        f"the mock function returned {v} for that call", who=mk["name"], op=kind)
+            self.hit("chain_result_matches_mock")
 
     def on_sim_error(self, e):
         lib_error(e)
@@ -474,15 +885,43 @@ def _gen_script(rng, cycles):
         s.append(["gap", rng.randint(1, 3)])
     w = [rng.random() + 0.2, rng.random(), rng.random() * 0.6, rng.random() * 0.4, rng.random() * 0.2,
          rng.random() * 0.8]
+    sticky = rng.choice([0.0, 0.0, 0.5, 0.9])  # how often an operation repeats the argument of the one before
+    x = rng.getrandbits(8)
     for _ in range(n):
         kind = rng.choices(["call", "try", "trig", "trigu", "trigus", "gap"], weights=w)[0]
         if kind == "gap":
             s.append(["gap", rng.randint(1, 4)])
-        elif kind == "trig":
-            s.append(["trig", rng.getrandbits(8), rng.randrange(2)])
+            continue
+        if rng.random() >= sticky:
+            x = rng.getrandbits(8)
+        if kind == "trig":
+            s.append(["trig", x, rng.randrange(2)])
         else:
-            s.append([kind, rng.getrandbits(8)])
+            s.append([kind, x])
     return s
+
+
+def _gen_mock(rng, sink=False, tx=False):
+    style = rng.random()
+    ln = rng.randint(1, 24)
+    if style < 0.12:
+        pat = None  # built without `enable`: the default
+    elif style < 0.3:
+        pat = [1] * ln
+    else:
+        q = rng.choice([0.2, 0.5, 0.8])
+        pat = [int(rng.random() < q) for _ in range(ln)]
+        if not any(pat):
+            pat[rng.randrange(ln)] = 1
+    form = rng.choice([0, 0, 1, 2, 2])
+    validate = None
+    if rng.random() < 0.3:
+        mask = rng.choice([0x03, 0x81, 0x10, 0x0C, 0x01, 0x60])
+        validate = [mask, rng.getrandbits(8) & mask]
+    return {"delay_ns": rng.choice([0, 0, 0, 1, 100, 250, 400, 600]), "enable": pat, "direct": int(form == 1),
+            "form": form, "neff": rng.choice([1, 1, 1, 0, 2, 2, 3]), "argstyle": int(rng.random() < 0.3),
+            "validate": validate, "sink": int(bool(sink)), "early": int(validate is not None or rng.random() < 0.25),
+            "steady": int(tx and rng.random() < 0.3)}
 
 
 class Prop(PropBase):
@@ -492,53 +931,97 @@ class Prop(PropBase):
         "thorough": {"runs": 40000, "selftest_runs": 32},
     }
     rule = ("one run = stub circuit with 1-3 callers (each a background testbench with its own script of call / "
-            "call_try / CallTrigger.call+sample / CallTrigger.until_done (with and without a sampled value) / idle gaps on its own TestbenchIO), 1-2 "
-            "mocked methods (def_method_mock or MethodMock; delay 0..600 ns, enable() pattern) called by hardware "
-            "transactions, optionally a glitcher changing inputs between clock edges; registration order of all "
+            "call_try / CallTrigger.call+sample / CallTrigger.until_done (with and without a sampled value) / idle gaps on its own TestbenchIO; "
+            "20% of the methods without inputs, called without data; 12-25% of the callers own a second method and hold "
+            "two calls in one CallTrigger: plain, until_done, until_all_done), 1-2 "
+            "mocked methods called by hardware transactions (30% of the pairs by one transaction), in 40% of the runs "
+            "1-2 chain methods (testbench caller -> chain method -> 1-2 mocked methods -> result back in the same "
+            "cycle); every mock: def_method_mock on a function / MethodMock / class-level bound form, named or single-arg "
+            "style, 0-3 effect blocks, delay 0..600 ns, enable() pattern or default, validate_arguments or not, made "
+            "before or after elaboration, 15% of the transaction-called ones without outputs (mock returns None); "
+            "optionally a glitcher changing inputs between clock edges; registration order of all "
             "coroutines, scheduler and the per-cycle readiness / request / argument inputs are drawn from the seed; "
             "60-180 cycles.  distinct = distinct (which callers executed, which mocked calls executed, kind of each "
             "caller's pending operation) per cycle; non-trivial = something executed")
     expected_cov = ["call_immediate", "call_waited", "try_done", "try_none", "trig_done", "trig_none", "trigu_waited",
                     "trigu_immediate", "trigus_done", "trigus_none", "back_to_back_executions", "contended_cycle_one_winner", "contended_cycle_blocked",
                     "in_flight_at_end", "mock_exec", "mock_exec_with_delay", "mock_function_reevaluated",
-                    "mock_disabled_blocked_request", "glitch_run"]
+                    "mock_disabled_blocked_request", "glitch_run",
+                    "chain_mock_exec", "chain_result_matches_mock", "chain_call_rejected_argument_none",
+                    "two_mocks_in_one_body_exec", "mock_with_0_effects", "mock_with_1_effects", "mock_with_2_effects",
+                    "mock_with_3_effects", "mock_def_method_mock", "mock_direct", "mock_class_level_bound",
+                    "mock_default_enable", "mock_single_arg_style", "mock_returning_none_exec", "mock_validating_exec",
+                    "mock_made_before_elaboration", "request_with_rejected_argument", "call_without_data_done",
+                    "pair_done", "pair_none", "pairu_done", "until_all_done", "two_calls_of_one_trigger_in_one_cycle",
+                    "mock_consecutive_calls_same_argument"]
     real = ["transactron.testing.testbenchio.TestbenchIO (call, call_try)", "transactron.testing.testbenchio.CallTrigger",
             "transactron.testing.method_mock.MethodMock / def_method_mock (output_process, effect_process)",
-            "transactron.testing.test_circuit.SimpleTestCircuit", "transactron.testing.simulator.tick",
+            "MethodMock.validate_arguments_process, MethodMock.effect (0-3 per invocation)",
+            "transactron.testing.test_circuit.SimpleTestCircuit (with exclude=)", "transactron.testing.simulator.tick",
             "transactron.lib.adapters.AdapterTrans / Adapter", "TransactionManager + scheduler", "amaranth pysim"]
-    stubs = ["stub circuit with hardware execution counters and capture registers", "cycle driver (environment inputs)",
+    stubs = ["stub circuit with hardware execution counters and capture registers (callers via a shared core method, "
+             "second methods, chain methods forwarding to mocked methods, transactions calling mocked methods)",
+             "cycle driver (environment inputs)",
              "caller scripts, mock functions with python-side effect counters, glitcher"]
     search_space = ("coroutine registration orders, mock delays and enable patterns, readiness histories (also changing "
                     "between clock edges), caller scripts")
     state_measure = "(callers that executed, mocked calls that executed, pending operation kind per caller) per cycle"
-    assumptions = ["mock delay stays below one clock period (a longer delay makes effect_process skip clock edges)",
+    assumptions = ["a validating mock is constructed before the circuit is elaborated (its constructor switches the "
+                   "adapter's with_validate_arguments on, which only elaboration reads; SimpleTestCircuit creates its "
+                   "adapters inside elaborate, so such methods get their Adapter from the harness)",
+                   "CallTrigger.until_all_done repeats calls that succeeded alone (by design): for it only 'a result "
+                   "belongs to an executing cycle' is judged, repetitions are counted",
+                   "method collections handed to SimpleTestCircuit are lists (dict-shaped collections fail in "
+                   "SimpleTestCircuit.elaborate: ModuleConnector(*mc_dict) receives the keys)",
+                   "mock delay stays below one clock period (a longer delay makes effect_process skip clock edges)",
                    "one caller coroutine per TestbenchIO (two coroutines driving one adapter is not a supported use)"]
 
     def gen_config(self, rng, tier, idx):
         cycles = rng.randint(60, 180)
         nc = rng.choice([1, 2, 2, 3])
         nm = rng.choice([1, 1, 2])
+        # chains: testbench caller -> chain method -> mocked method(s) -> back (a share of the runs)
+        r = rng.random()
+        nch = 0 if r < 0.6 else 1 if r < 0.95 else 2
+        if nch:  # keep the size of the circuit (and the run time) about where it was
+            nc = min(nc, 2)
+            cycles = min(cycles, 150)
+            if rng.random() < 0.6:
+                nm = 1
         callers = [_gen_script(rng, cycles) for _ in range(nc)]
-        mocks = []
-        for j in range(nm):
-            style = rng.random()
-            ln = rng.randint(1, 24)
-            if style < 0.25:
-                pat = [1] * ln
-            else:
-                q = rng.choice([0.2, 0.5, 0.8])
-                pat = [int(rng.random() < q) for _ in range(ln)]
-                if not any(pat):
-                    pat[rng.randrange(ln)] = 1
-            mocks.append({"delay_ns": rng.choice([0, 0, 0, 1, 100, 250, 400, 600]), "enable": pat,
-                          "direct": int(rng.random() < 0.3)})
+        mocks = [_gen_mock(rng, sink=rng.random() < 0.15, tx=True) for j in range(nm)]
         glitch = None
         if rng.random() < 0.4:
             glitch = {"delay_ns": rng.choice([0, 1, 50, 200, 300, 500, 700]),
                       "pattern": [rng.choice([0, 0, 1, 0x40, 0x41, rng.getrandbits(8)]) for _ in range(rng.randint(2, 16))]}
-        units = [f"c{k}" for k in range(nc)] + [f"m{j}" for j in range(nm)] + (["g"] if glitch else [])
+        chains = []
+        for _ in range(nch):
+            ms = [_gen_mock(rng) for _ in range(2 if rng.random() < 0.35 else 1)]
+            script = _gen_script(rng, cycles)
+            if not glitch:  # a blocking call whose argument a mock rejects would only wait for the end of the run
+                for op in script:
+                    if op[0] in ("call", "trigu"):
+                        for _try in range(8):
+                            a = (op[1] ^ K_CH) & 0xFF
+                            if arg_valid(ms[0].get("validate"), a) and arg_valid(ms[-1].get("validate"),
+                                                                                 a ^ (0xFF if len(ms) > 1 else 0)):
+                                break
+                            op[1] = rng.getrandbits(8)
+            chains.append({"script": script, "mocks": ms})
+        noarg = [int(rng.random() < 0.2) for _ in range(nc)]
+        aux = [int(rng.random() < (0.12 if nch else 0.25)) for _ in range(nc)]
+        for k in range(nc):
+            if aux[k]:  # some of this caller's operations become two calls held by one CallTrigger
+                for op in callers[k]:
+                    if op[0] != "gap" and rng.random() < 0.45:
+                        op[:] = [rng.choice(["pair", "pair", "pairu", "pairu", "paira"]), op[1], rng.getrandbits(8)]
+        tpair = int(nm == 2 and rng.random() < 0.3)
+        units = ([f"c{k}" for k in range(nc)] + [f"m{j}" for j in range(nm)] + (["g"] if glitch else [])
+                 + [f"h{c}" for c in range(len(chains))]
+                 + [("n", "o")[b] + str(c) for c in range(len(chains)) for b in range(len(chains[c]["mocks"]))])
         rng.shuffle(units)
         return {"callers": callers, "mocks": mocks, "glitch": glitch, "order": units, "cycles": cycles,
+                "chains": chains, "noarg": noarg, "aux": aux, "tpair": tpair,
                 "sched": rng.choice(["eager", "eager", "rr"]),
                 "plan": make_plan(rng, cycles, ["random", "random", "open", "blocked", "flap", "outer"], 4, 30)}
 
@@ -548,17 +1031,75 @@ class Prop(PropBase):
     def features(self, cfg, viol):
         info = viol.get("info") or {}
         who = info.get("who") or ""
-        return {"part": "mock" if who.startswith("m") else "caller" if who.startswith("c") else None}
+        return {"part": "mock" if who[:1] in ("m", "n", "o") else "caller" if who[:1] in ("c", "a", "h") else None}
 
     def cfg_signature(self, cfg):
-        return [len(cfg["callers"]), [[m["delay_ns"] > 0, m["direct"]] for m in cfg["mocks"]], bool(cfg["glitch"]),
-                cfg["sched"], cfg["order"]]
+        def msig(m):
+            return [m["delay_ns"] > 0, mock_form(m), m.get("neff", 1), bool(m.get("validate")), m["enable"] is None,
+                    bool(m.get("argstyle")), bool(m.get("sink")), mock_early(m), bool(m.get("steady"))]
+
+        return [len(cfg["callers"]), [msig(m) for m in cfg["mocks"]], bool(cfg["glitch"]),
+                cfg["sched"], cfg["order"], [[msig(m) for m in ch["mocks"]] for ch in cfg.get("chains") or []],
+                cfg.get("noarg"), cfg.get("aux"), bool(cfg.get("tpair"))]
 
     def shrink_cfg(self, cfg):
         if cfg.get("glitch"):
             c = dict(cfg)
             c["glitch"] = None
             yield c
+        chains = cfg.get("chains") or []
+        if chains:  # input names are positional: only the last chain can go
+            c = dict(cfg)
+            c["chains"] = chains[:-1]
+            yield c
+            for ci, ch in enumerate(chains):
+                if len(ch["mocks"]) > 1:
+                    c = dict(cfg)
+                    c["chains"] = [dict(x, mocks=x["mocks"][:1]) if i == ci else x for i, x in enumerate(chains)]
+                    yield c
+                if len(ch["script"]) > 1:
+                    for cut in (ch["script"][: len(ch["script"]) // 2], ch["script"][:-1]):
+                        c = dict(cfg)
+                        c["chains"] = [dict(x, script=cut) if i == ci else x for i, x in enumerate(chains)]
+                        yield c
+        if cfg.get("tpair"):
+            c = dict(cfg)
+            c["tpair"] = 0
+            yield c
+        for key in ("noarg", "aux"):
+            if any(cfg.get(key) or []):
+                c = dict(cfg)
+                c[key] = [0] * len(cfg[key])
+                yield c
+
+        def plainer(m):
+            if m.get("validate"):
+                yield dict(m, validate=None)
+            elif m.get("early"):
+                yield dict(m, early=0)
+            if m.get("neff", 1) != 1:
+                yield dict(m, neff=1)
+            if mock_form(m) != 0:
+                yield dict(m, form=0, direct=0)
+            if m.get("argstyle"):
+                yield dict(m, argstyle=0)
+            if m.get("steady"):
+                yield dict(m, steady=0)
+            if m["enable"] is not None and not all(m["enable"]):
+                yield dict(m, enable=[1])
+
+        for j, m in enumerate(cfg["mocks"]):
+            for nm_ in plainer(m):
+                c = dict(cfg)
+                c["mocks"] = [nm_ if i == j else x for i, x in enumerate(cfg["mocks"])]
+                yield c
+        for ci, ch in enumerate(chains):
+            for b, m in enumerate(ch["mocks"]):
+                for nm_ in plainer(m):
+                    c = dict(cfg)
+                    c["chains"] = [dict(x, mocks=[nm_ if bb == b else y for bb, y in enumerate(x["mocks"])])
+                                   if i == ci else x for i, x in enumerate(chains)]
+                    yield c
         if len(cfg["mocks"]) > 1:
             c = dict(cfg)
             c["mocks"] = cfg["mocks"][:1]
